@@ -616,7 +616,8 @@ def f2c_transform(text, prog, workdir, entry='kernel'):
 
 def _run(cmd, cwd, timeout):
     try:
-        p = subprocess.run(cmd, cwd=cwd, capture_output=True, text=True, timeout=timeout, errors='replace')
+        p = subprocess.run(cmd, cwd=cwd, capture_output=True, text=True, timeout=timeout, errors='replace',
+                           env=dict(os.environ, LC_ALL='C', LANG='C'))
     except subprocess.TimeoutExpired:
         return None, '', 'timeout'
     return p.returncode, p.stdout, p.stderr
@@ -867,6 +868,9 @@ def signature(kind, msg):
     if kind == 'output':
         return 'output:differs'
     lines = [ln.strip() for ln in msg.splitlines() if ln.strip()]
+    sig = re.search(r'Program received signal \w+', msg)
+    if sig:
+        return f'{kind}:{sig.group(0)}'
     pick = next((ln for ln in lines if re.search(r'\berror\b|Error', ln) and not ln.startswith('Traceback')), lines[0] if lines else '')
     if kind == 'transform-raised':
         pick = lines[0] if lines else ''
@@ -1031,7 +1035,7 @@ def run_property(ctx, label, transform, execute, core, pools, quick_counts, thor
         cases = gen_cases(ctx.rng, pools, core, lambda p: counts.get(p, counts['*']))
     results, fails, stats = check(ctx, label, cases, transform, execute, shards=8 if ctx.quick else None)
     report(ctx, label, cases, results, fails, make_recheck(ctx, label, transform, execute),
-           max_shrink=2 if ctx.quick else 6)
+           max_shrink=1 if ctx.quick else 6, rounds=3 if ctx.quick else 6)
     for k, v in stats.items():
         ctx.cover[f'{label}_{k}'] = v
     per_pool = {}
